@@ -237,7 +237,7 @@ class Pipeline:
             obsn = c.get("obs") or [n for n in vt if n not in ("X", "Y") and (n in vocab.DECL or n in c.get("obs_extra", ())) and not vt[n].get("rom") and not vt[n].get("hidden")]
             maxlen = max(len(v["code"]) for v in uniq)
             tcases.append(dict(id=c["id"], vt=vt, fs=vocab.fs_for(c.get("fnames", ())), body=c.get("body") or [], fuel=fuel, obs=obsn,
-                               regions=regions, variants=uniq, tmp=link.TMP_ADDR, prefix=bool(c.get("prefix", False)), cycdiff=int(c.get("cycdiff", -1)), sem=bool(sem and c.get("body") is not None),
+                               regions=regions, variants=uniq, tmp=link.TMP_ADDR, prefix=bool(c.get("prefix", False)), cycdiff=int(c.get("cycdiff", -1)), xio=bool(c.get("xio", False)), sem=bool(sem and c.get("body") is not None),
                                pair=bool(pair and len(uniq) > 1), inputs=[dict(inp=i) for i in inputs], _maxlen=maxlen, _src=c["variants"][0]["src"], _fam=c["fam"]))
             if len(self.samples) < 6 and (st["programs"] % 97 == 1):
                 self.samples.append(dict(id=c["id"], fam=c["fam"], src=c["variants"][0]["src"], input=inputs[0],
